@@ -8,8 +8,14 @@
 package c15
 
 import (
+	"bytes"
 	"fmt"
 	"math/big"
+	"strings"
+
+	"github.com/Oneledger/protocol/chains/ethereum/contract"
+	"github.com/ethereum/go-ethereum/accounts/abi"
+	ethtypes "github.com/ethereum/go-ethereum/core/types"
 
 	"verif/harness"
 	"verif/txs/xch"
@@ -171,6 +177,18 @@ func configs() []config {
 			ev = append(ev, pair(rep(wit(0), "Z", false), rep(wit(1), "Z", false)), pair(rep(wit(0), "Z", true), rep(wit(1), "Z", true)))
 		}
 		out = append(out, config{Name: fmt.Sprintf("redeem/%dw", n), N: n, Mode: "redeem", Events: ev, Quick: n != 4})
+		// ---- redeem with a hostile ENVELOPE: the embedded Ethereum transaction is well formed, but one of its
+		// fields (the gas price) holds the bytes of the redeem selector, so "the amount" depends on whether a
+		// parser looks at the whole envelope or at the call data. Whatever was debited when the tracker was
+		// created is what a failed redeem gives back. (Added after a seeded change - the refund parsed from the
+		// call data, the debit from the raw envelope - escaped the well-formed envelopes.)
+		ev = []event{{}}
+		ev = append(ev, single(redeem(0, "ZS"))...)
+		ev = append(ev, single(honestReports(n, "ZS")...)...)
+		if n > 1 {
+			ev = append(ev, pair(rep(wit(0), "ZS", false), rep(wit(1), "ZS", false)))
+		}
+		out = append(out, config{Name: fmt.Sprintf("redeem-envelope/%dw", n), N: n, Mode: "redeem", Events: ev, Quick: n == 1 || n == 3})
 		if n == 2 {
 			continue // mixed and erc20 add nothing about the threshold
 		}
@@ -250,7 +268,19 @@ func buildExternals(w *harness.World) map[string]ext {
 	copy(z36[4:], make([]byte, 32))
 	amt := eth(2).Bytes()
 	copy(z36[36-len(amt):], amt)
+	// ZS: redeem(4 ETH) whose 32-byte gas price starts with the selector of redeem(uint256). The application
+	// takes the amount of a redeem from the 32 bytes that follow the FIRST occurrence of the selector in the
+	// raw bytes it was given (chains/ethereum ParseRedeem); the reference amount follows the same rule, written
+	// out here, because the statement only fixes that the refund equals the debit
+	a := mustRedeemData(eth(4))
+	gp := new(big.Int).SetBytes(append([]byte{0xdb, 0x00, 0x6a, 0x75}, make([]byte, 28)...))
+	zs := xch.SignEthTx(ethtypes.NewTransaction(6, harness.ETHContractAddr, big.NewInt(0), 21000, gp, a), k0)
+	zsAmt := new(big.Int)
+	if i := bytes.Index(zs, []byte{0xdb, 0x00, 0x6a, 0x75}); i >= 0 && i+36 <= len(zs) {
+		zsAmt.SetBytes(zs[i+4 : i+36])
+	}
 	return map[string]ext{
+		"ZS":  {zs, zsAmt, "ETH"},
 		"X":   {xch.RawLockTx(k0, 0, eth(1)), eth(1), "ETH"},
 		"Y":   {xch.RawLockTx(k1, 0, eth(2)), eth(2), "ETH"},
 		"Z":   {xch.RawRedeemTx(k0, 1, eth(2)), eth(2), "ETH"},
@@ -260,4 +290,17 @@ func buildExternals(w *harness.World) map[string]ext {
 		"EZ":  {xch.RawERC20RedeemTx(k0, 4, harness.TTCTokenAddr, eth(4)), eth(4), "TTC"},
 		"EZT": {xch.RawERC20RedeemTxTo(k0, 5, harness.TTCTokenAddr, harness.TTCTokenAddr, eth(4)), eth(4), "TTC"},
 	}
+}
+
+// mustRedeemData is the call data of redeem(amount) on the LockRedeem contract.
+func mustRedeemData(amount *big.Int) []byte {
+	a, err := abi.JSON(strings.NewReader(contract.LockRedeemABI))
+	if err != nil {
+		panic(err)
+	}
+	data, err := a.Pack("redeem", amount)
+	if err != nil {
+		panic(err)
+	}
+	return data
 }
